@@ -8,6 +8,7 @@ import JinjaV.Wire.Stream
 import JinjaV.Wire.Macro
 import JinjaV.Wire.Sandbox
 import JinjaV.Wire.Undefined
+import JinjaV.Wire.Path
 
 open JinjaV
 
@@ -23,6 +24,10 @@ def dispatch (line : String) : Sx :=
     | "macro" => Wire.Macro.handle args
     | "sbx" => Wire.Sandbox.handle args
     | "undef" => Wire.Undefined.handle args
+    | "path-split" => Wire.Path.handleSplit args
+    | "path-join" => Wire.Path.handleJoin args
+    | "path-choice" => Wire.Path.handleChoice args
+    | "path-prefix" => Wire.Path.handlePrefix args
     | "sbx-unblocked" => Wire.Sandbox.handleUnblocked args
     | _ => Sx.bad
   | _ => Sx.bad
